@@ -28,7 +28,7 @@ SAFE_LABELS = [None, None, "", "step", "fill up", "µL", "serial 1:2", "last", "
 PROFILES = {
     # hostile limits (C02)
     "limits": {
-        "ops": {"add": 4, "remove": 4, "aspirate": 3, "dispense": 3, "transfer": 4, "distribute": 2, "evo_aspirate": 1, "evo_dispense": 1},
+        "ops": {"add": 4, "remove": 4, "aspirate": 3, "dispense": 3, "transfer": 4, "distribute": 2, "evo_aspirate": 1, "evo_dispense": 1, "set_limits": 0.4},
         "aims": {"ok": 8, "exact": 3, "ulp": 3, "beyond": 3, "huge": 1, "inf": 1, "nan": 0.3, "neg": 0.3, "zero": 1, "cumulative": 2},
         "fault_rate": 0.55,
         "comps": 0.5,
@@ -465,6 +465,23 @@ class Engine:
             op["comps"] = enc(self.comps_for(n)) if rng.random() < self.profile["comps"] else None
         return op
 
+    def gen_set_limits(self):
+        """The limits are public attributes of a labware: the user corrects them after construction (another plate
+        type, a measured dead volume).  The new values are consistent with the current filling (nothing above the
+        new maximum); from then on they are the limits."""
+        rng = self.rng
+        name = rng.choice(list(self.descs))
+        d = self.descs[name]
+        cur = self.cur(name)
+        top = float(np.max(cur)) if cur.size else 0.0
+        new_max = max(top, 1.0) * rng.choice([1.0, 1.25, 2.0, 10.0]) + rng.choice([0.0, 0.5, 10.0])
+        if rng.random() < 0.3:
+            new_max = d["max_volume"]
+        new_min = rng.choice([0.0, d["min_volume"], d["min_volume"] * 2 + 1.0, min(top, new_max) * 0.5, 5.0])
+        if not (0 <= new_min < new_max) or new_max < top:
+            new_min, new_max = d["min_volume"], max(d["max_volume"], top)
+        return {"op": "set_limits", "lw": name, "min": float(new_min), "max": float(new_max)}
+
     def gen_op(self):
         kind = _weighted(self.rng, self.profile["ops"])
         if kind in ("add", "remove", "aspirate", "dispense"):
@@ -479,6 +496,8 @@ class Engine:
             return {"op": "wash", "scheme": self.rng.choice([1, 2, 3, 4])}
         if kind in ("flush", "commit", "decontaminate"):
             return {"op": kind}
+        if kind == "set_limits":
+            return self.gen_set_limits()
         return self.gen_evo(kind) or self.gen_single("dispense" if kind == "evo_dispense" else "aspirate")
 
     # -- main loop -------------------------------------------------------------------------------
@@ -492,6 +511,9 @@ class Engine:
             for m in self.monitors:
                 m.before(self, op)
             out = self.world.exec(op)
+            if op["op"] == "set_limits" and out.exc is None:
+                self.descs[op["lw"]]["min_volume"] = op["min"]
+                self.descs[op["lw"]]["max_volume"] = op["max"]
             self.ctx.count("op:" + op["op"])
             if out.exc is not None:
                 self.ctx.count("rejected:" + op["op"] + ":" + type(out.exc).__name__)
